@@ -155,16 +155,9 @@ pub struct Cycle {
 impl Cycle {
     /// Creates a new [Cycle] adaptor
     pub fn new(iter: KIterator) -> Self {
-        let (lower_bound, _) = iter.size_hint();
-        let size_hint = if lower_bound < usize::MAX {
-            lower_bound
-        } else {
-            0
-        };
-
         Self {
+            cache: Vec::with_capacity(super::reserved_capacity(&iter)),
             iter,
-            cache: Vec::with_capacity(size_hint),
             cycle_index: 0,
         }
     }
